@@ -36,7 +36,7 @@ TEXTS = {
     },
     "C14": {
         "technique": "runtime invariant monitor on nms() outputs (pointer-identity mapping to inputs) with an f64 coverage reference and an idempotence re-application",
-        "level_text": "2e5 (quick) to 2e6 (thorough) generated lists of 0..40 boxes in clustered / sparse / nested / duplicated / mixed styles (a fifth in normalised coordinates with heights 1e-3..1e-1, a quarter with detection confidences != 1, a tenth of the boxes carrying a stale vertex cache, 8% exact integer-grid lists) with all score / threshold modes and invalid boxes mixed in; every output is checked for subset+filter, rank order, top-ranked kept, kept-not-covered, dropped-covered and nms(nms(x)) == nms(x).",
+        "level_text": "2e5 (quick) to 2e6 (thorough) generated lists of 0..40 boxes in clustered / sparse / nested / duplicated / mixed styles (a fifth in normalised coordinates with heights 1e-3..1e-1, a quarter with detection confidences != 1, a tenth of the boxes carrying a stale vertex cache, a tenth of the lists 1e5..4e6 away from the origin, a quarter of the scored lists with signed scores, 8% exact integer-grid lists) with all score / threshold modes and invalid boxes mixed in; every output is checked for subset+filter, rank order, top-ranked kept, kept-not-covered, dropped-covered and nms(nms(x)) == nms(x).",
         "level_note": "Coverage decisions within 1e-4 of the threshold are not judged (counted). Rank ties: only non-increasing order is required.",
     },
     "C15": {
@@ -56,12 +56,12 @@ TEXTS = {
     },
     "C09": {
         "technique": "runtime reference-model monitor: sequential map model shadowing every store operation, full state comparison through get_store() after each step; exhaustive short sequences + random long ones; Miri (thorough)",
-        "level_text": "All operation sequences of length <= 2 (quick) / <= 3 (thorough, 70^3 x 2 shard counts) over a 70-operation alphabet are executed against the real store, plus tens of thousands of sampled length-3 and hundreds to thousands of random sequences of 50..400 operations on 1..5 shards; after every single operation the return value and the complete contents of every shard are compared with a sequential model built on the workload's own attribute / metric callbacks (incl. data-driven callback failures). In the random sequences four threads periodically issue the &self operations (lookup with every query kind, shard_stats) concurrently against the quiescent store; each call must return the model's answer.",
+        "level_text": "All operation sequences of length <= 2 (quick) / <= 3 (thorough, 70^3 x 2 shard counts) over a 70-operation alphabet are executed against the real store, plus tens of thousands of sampled length-3 and hundreds to thousands of random sequences of 50..400 operations on 1..5 shards; after every single operation the return value and the complete contents of every shard are compared with a sequential model built on the workload's own attribute / metric callbacks (incl. data-driven callback failures). In the random sequences four threads periodically issue the &self operations (lookup with every query kind, shard_stats) concurrently against the quiescent store; each call must return the model's answer. A third of the non-blocking merges are fire-and-forget (future dropped while the merge is in flight); a quiescence detector turns a store operation that never returns into a deadlock violation.",
         "level_note": "The model calls the same user callbacks, so the oracle is the composition rule of the store / track code. Non-blocking merges are awaited before the next operation. Random sequences are sampled.",
     },
     "C10": {
         "technique": "runtime reference enumeration + controlled schedules: gate scripts at the guarded worker schedule points enumerate every command order (and caller position) for small scenarios, seeded delay plans for larger ones; Miri many-seeds and TSan (thorough)",
-        "level_text": "Every scenario's result and error multisets are compared with an enumeration over the pre-query store contents, the store is compared before/after, and the same query is re-executed under all worker-command interleavings x caller positions (<= 3 shards x <= 2 candidates: up to 90 x 7 scripts) or under random delay plans; the number of distinct command orders actually observed is reported.",
+        "level_text": "Every scenario's result and error multisets are compared with an enumeration over the pre-query store contents, the store is compared before/after, and the same query is re-executed under all worker-command interleavings x caller positions (<= 3 shards x <= 2 candidates: up to 90 x 7 scripts) or under random delay plans; the two result streams are read in either order or one of them is dropped unread, and 15% of the scenarios are preceded by an abandoned (half-consumed) query; the number of distinct command orders actually observed is reported.",
         "level_note": "Exhaustive only at command granularity for the small scenarios; larger scenarios see the schedules the delay plans and the OS produce. Assumes per-worker FIFO command order.",
     },
     "C11": {
@@ -91,12 +91,12 @@ TEXTS = {
     },
     "C13": {
         "technique": "runtime shadow-state monitor: per-track shadow lists maintained from the API boundary vs galleries / histories read from the store after every call; unique features identify their detection",
-        "level_text": "All four trackers; histories up to ~800 calls with 1..2 long-lived objects (track lifetimes to several hundred updates) and shorter multi-object ones; after every call every touched track is checked for history contents/order/length, gallery bound, collected count, eviction of a minimal-quality feature, collect-threshold filtering, layout (entry 0 newest with box) and, on wasted(), the conversions.",
+        "level_text": "All four trackers; histories up to ~800 calls with 1..2 long-lived objects (track lifetimes to several hundred updates) and shorter multi-object ones; after every call every touched track is checked for history contents/order/length, gallery bound, collected count, eviction of a minimal-quality feature, collect-threshold filtering, layout (entry 0 newest with box) and, on wasted(), the conversions and the gallery of the expired track itself (reported count = stored features = gallery last seen alive). Qualities above 1 occur.",
         "level_note": "Which of several equal-minimal-quality features is evicted is not prescribed (observed). Collect decisions inside the numeric band are skipped and counted.",
     },
     "C20": {
         "technique": "exhaustive table enumeration against a reference lookup + differential / invariant monitors on constrained vs unconstrained tracker runs",
-        "level_text": "All 142 596 constraint tables with <= 3 entries (every order, every split over two add_constraints calls) are probed at 99 (gap, distance) points each; Sort and VisualSort histories with teleporting / re-appearing objects are run unconstrained, with non-binding and with random binding tables: equality (bit-exact) for non-binding ones, distance-limit invariant and assignment optimality among admissible pairs for binding ones.",
+        "level_text": "All 142 596 constraint tables with <= 3 entries (every order, every split over two add_constraints calls) are probed at 99 (gap, distance) points each; Sort, VisualSort, BatchSort and BatchVisualSort histories with teleporting / re-appearing objects (the batch kinds also re-run pipelined) are run unconstrained, with non-binding and with random binding tables: equality (bit-exact) for non-binding ones, distance-limit invariant and assignment optimality among admissible pairs for binding ones.",
         "level_note": "Table part is exhaustive for the stated alphabet; tracker histories are sampled.",
     },
     "C04": {
@@ -117,7 +117,7 @@ TEXTS = {
     "C18": {
         "engine": "python-rust-differential",
         "technique": "runtime differential: one generated JSON API script, two interpreters (CPython + the cdylib built from the current tree vs a Rust driver on the wrapped API), field-by-field trace comparison with a per-method coverage table; valgrind memcheck on CPython + similari.so (thorough)",
-        "level_text": "160 (quick) to 5000 (thorough) generated scripts of ~40..150 calls covering every class, constructor, static method, method, getter and setter registered in the module (126 coverage keys, each required to be exercised); constructor keyword arguments are randomly omitted so that the documented defaults are compared with what the wrapper applies; option setters are checked through the Debug representation of the options object, including setters called repeatedly with transiently inconsistent values; NMS is called with score thresholds below, inside and above the range of the box heights.",
+        "level_text": "160 (quick) to 5000 (thorough) generated scripts of ~40..150 calls covering every class, constructor, static method, method, getter and setter registered in the module (126 coverage keys, each required to be exercised); constructor keyword arguments are randomly omitted so that the documented defaults are compared with what the wrapper applies; option setters are checked through the Debug representation of the options object, including setters called repeatedly with transiently inconsistent values; NMS is called with score thresholds below, inside and above the range of the box heights; batch request objects are re-submitted; exactly touching boxes are clipped; empty feature vectors are passed.",
         "level_note": "The Rust driver encodes the intended meaning of each binding (documented defaults included) and is itself trusted. Batch-tracker ids and shard distributions are schedule dependent and compared after canonical renaming / as sums.",
     },
 }
